@@ -29,7 +29,7 @@ def cases(tier, seed):
     rng = random.Random('C09/%s' % seed)
     grid = valid_2d()
     out = []
-    reps = 1 if tier == 'quick' else 10
+    reps = 3 if tier == 'quick' else 12
     for rep in range(reps):
         for i, (rate, bs) in enumerate(grid):
             b = bs[1]
